@@ -1,0 +1,18 @@
+//go:build verif
+
+package rpc
+
+import (
+	"github.com/cristalhq/jwt/v5"
+
+	"github.com/celestiaorg/celestia-node/api/rpc"
+)
+
+// VerifRegisterEndpoints exposes registerEndpoints (the function the node invokes to register all
+// RPC modules) to the verification harness. Only compiled with build tag `verif`.
+var VerifRegisterEndpoints any = registerEndpoints
+
+// VerifServer exposes the server constructor the node uses (Config -> *rpc.Server).
+func VerifServer(cfg *Config, signer jwt.Signer, verifier jwt.Verifier) *rpc.Server {
+	return server(cfg, signer, verifier)
+}
